@@ -483,6 +483,15 @@ class Body:
         if local != 0 and local <= self.argc and not ds:
             n = self.dbg_name(str(local)) or f"arg{local}"
             return n + rest
+        if len(ds) == 1 and MARK_MUT and local in self.mutated_locals() and not (
+                # a by-value parameter moved into a local of the (coroutine) body is still "the
+                # parameter": handles such as `mut state: S` are mutable by design
+                ds[0][0] == "stmt" and ds[0][4][0] == "use" and op_local(ds[0][4][1]) is not None
+                and 0 < op_local(ds[0][4][1]) <= self.argc):
+            # the value is edited in place after its definition (`&mut local..` handed to a call
+            # or an assignment to one of its parts): it is no longer "the value of its
+            # definition" - make that visible in the root so that equalities fail closed
+            rest = "~mut" + rest
         if len(ds) == 1:
             d = ds[0]
             if d[0] == "stmt":
@@ -543,6 +552,51 @@ class Body:
                     out.append(f"{short_name(c.callee)}(" + ",".join(self.root(a) for a in c.args) + ")")
         return out
 
+    def mutated_locals(self):
+        """Locals whose value can be edited in place after their definition: a part of them is
+        assigned, or a `&mut` borrow of them (or of a part) reaches a call that is not mere
+        plumbing (advancing an iterator, polling a future, `?` conversion)."""
+        m = self.__dict__.get("_mutated")
+        if m is None:
+            m = set()
+            uses = defaultdict(list)        # local -> consumers (calls / reborrow targets)
+            for c in self.calls:
+                for a in c.args:
+                    l = op_local(a)
+                    if l is not None:
+                        uses[l].append(c)
+            reborrow = defaultdict(list)
+            for i, j, p, rv, line in self.assigns():
+                if rv[0] in ("ref", "ptr") and not place_proj(p):
+                    src = rv[2] if rv[0] == "ref" else rv[1]
+                    reborrow[place_local(src)].append(place_local(p))
+                elif rv[0] in ("use", "cast") and not place_proj(p):
+                    l = op_local(rv[1] if rv[0] == "use" else rv[2])
+                    if l is not None:
+                        reborrow[l].append(place_local(p))
+
+            def benign(r, seen):
+                if r in seen:
+                    return True
+                seen.add(r)
+                for c in uses.get(r, []):
+                    if not (c.is_(*ADAPTERS) or c.is_(TRY_BRANCH) or
+                            re.search(r"(Iterator>?::next|Pin::<.*>::new_unchecked|Future>?::poll|"
+                                      r"::get_context|IntoFuture>?::into_future|DerefMut>?::deref_mut|"
+                                      r"pin::Pin<.*>::as_mut)$", c.callee or "")):
+                        return False
+                return all(benign(x, seen) for x in reborrow.get(r, []))
+            for i, j, p, rv, line in self.assigns():
+                pj = place_proj(p)
+                if pj and pj[0] != "*":
+                    m.add(place_local(p))
+                if rv[0] == "ref" and rv[1] == "mut":
+                    pj = place_proj(rv[2])
+                    if (not pj or pj[0] != "*") and not benign(place_local(p), set()):
+                        m.add(place_local(rv[2]))
+            self._mutated = m
+        return m
+
     def mut_uses(self, local):
         """Places where the value held in `local` can be modified in place: assignments to a
         projection of it and `&mut` borrows of it or of a part of it (the borrow is then handed
@@ -594,6 +648,7 @@ class Body:
         return f"{self.name} ({self.file}:{self.line})"
 
 
+MARK_MUT = os.environ.get("VERIF_MARK_MUT", "1") == "1"
 TRANSPARENT = {"deref", "as_ref", "borrow", "clone", "as_mut", "deref_mut", "into", "from",
                "to_owned", "as_slice", "unbox", "into_inner", "borrow_mut"}
 PURE_ACCESSORS = set()
